@@ -4,5 +4,10 @@ TEXT = {
    technique="contract-based deductive verification (pyvc: VCs from the real AST, z3/cvc5) + code-independent SMT lemmas",
    text="Every listed function of rig/geometry.py is verified against a postcondition taken from the property statement for ALL integer inputs and all outcomes of the random tie-breaks: path lengths equal hexd / the minimum of hexd over the four nearest lifts, path vectors have exactly that many hops and lead to the destination (modulo the torus size). Two SMT lemmas show that hexd is 1-Lipschitz along every link (so no walk is shorter) and that no lift of the destination beats the four considered, which is what makes the closed forms the graph distance. Unit tests sample a handful of pairs; the obligations quantify over all of Z^3 x Z^3 x sizes.",
    note="Trusted: pyvc's encoding of the Python subset, z3; induction over walk length is the standard argument from the proved step lemma. Bounded part (not counted as proved): BFS on all tori up to 7x7 (12x12 thorough)."),
+ "C19": dict(
+   design_ref="DESIGN.md 8/C19",
+   technique="contract-based deductive verification (pyvc) of the table-driven functions against an independent tile model; finite table lemmas; bounded enumeration for generator completeness and the float sqrt",
+   text="spinn5_chip_coord, spinn5_local_eth_coord and spinn5_fpga_link are proved, with the real 12x12 offset table and the real FPGA dictionary read from the module on every run, to agree with an independent description of the tiling (48-chip hexagon, Ethernet chips at (0,0),(4,8),(8,4) mod 12) for ALL integer chip coordinates, root offsets and machine sizes; uniqueness of the board of a chip and distinctness of the 48 FPGA link numbers are SMT lemmas; every coordinate yielded by spinn5_eth_coords is proved to be an Ethernet chip inside the machine (ghost assertion at the yield).  Completeness of spinn5_eth_coords and standard_system_dimensions (float sqrt) are bounded: exhaustive over all sizes <= 26 (60 thorough) x 144 roots and all board counts <= 30000 (300000).",
+   note="Trusted: the tile model in specs/c19_spinn5.py, pyvc encoding, z3. Bounded parts are labelled bounded and not counted among the discharged obligations."),
 }
 NA = {}
